@@ -12,13 +12,13 @@ C("C07",
   "DESIGN.md §5 C07")
 
 C("C08",
-  "Quadratic and cubic extension arithmetic (all operators, square/cube fast paths, mul_base, inv, conjugate, exp, embedding, byte round trip, slice reinterpretation) is compared with schoolbook polynomial arithmetic modulo the documented irreducible over the u128 reference field; every coefficient position takes every boundary base element (also as internal image) against every position/boundary of the other operand; algebraic laws of conjugation and inversion are asserted.",
+  "Quadratic and cubic extension arithmetic (all operators, square/cube fast paths, mul_base with every boundary base element as multiplier, inv, conjugate, exp, embedding, byte round trip, slice reinterpretation, conversions incl. ragged / misaligned byte slices) is compared with schoolbook polynomial arithmetic modulo the documented irreducible over the u128 reference field; every coefficient position takes every boundary base element (also as internal image) against every position/boundary of the other operand; algebraic laws of conjugation and inversion are asserted.",
   "Trusted: reference schoolbook arithmetic and the documented irreducibles (f64: x^2-x+2, x^3-x-1; f62: x^2-x-1, x^3+2x+2; f128: x^2-x-1); Frobenius computed as x^p.",
   "reference-model monitor on boundary-positioned and random operands + algebraic-law assertions",
   "DESIGN.md §5 C08")
 
 C("C09",
-  "Outputs of evaluate_poly, serial_fft, evaluate_poly_with_offset, interpolate_poly(_with_offset), infer_degree, twiddles, permute_index and of the column-batched LDE builders (ColMatrix/RowMatrix/Segment, segment widths 8/4/1, 1..255 columns) are compared with direct evaluation at explicitly computed domain points, for sizes 2^1..2^12 (quick) / 2^14 (thorough), base and extension fields, in the serial build and in the concurrent build under 3 and 16 threads.",
+  "Outputs of evaluate_poly, serial_fft, evaluate_poly_with_offset, interpolate_poly(_with_offset), infer_degree, twiddles, permute_index and of the column-batched LDE builders (ColMatrix/RowMatrix/Segment, segment widths 8/4/1, 1..255 columns) are compared with direct evaluation at explicitly computed domain points (also over StarkDomain::new(air) with a constraint-evaluation domain smaller than the LDE domain, whose accessors and x-coordinate look-ups are checked against their definitions), for sizes 2^1..2^12 (quick) / 2^14 (thorough), base and extension fields, in the serial build and in the concurrent build under 3 and 16 threads.",
   "Trusted: direct evaluation with the library's own field operations (monitored by C07/C08). Above the all-points budget only boundary + sampled points are compared (plus exact inverse-transform identity).",
   "differential monitor against direct polynomial evaluation; serial and concurrent builds",
   "DESIGN.md §5 C09")
@@ -48,7 +48,7 @@ C("C11",
   "DESIGN.md §5 C11")
 
 C("C10",
-  "Positive and negative monitors against a naive tree recomputed with the Hasher API: every non-empty subset of positions for trees of depth 1..4 (65,535 subsets at depth 4), every order of every subset at depth <= 3, sampled position sets (1..255 positions, adjacent/cousin/all-left/all-right patterns, shuffled orders) at depths 5..12, six hashers, serial and concurrent tree construction. Honest openings must verify, decompress to the naive paths, re-compress to themselves and survive the node wire format; ~40 mutation classes (each leaf/node replaced, vectors truncated/extended/moved, depth changes incl. >= 64, positions duplicated/permuted/out of range/added) must each return an error - acceptance or a panic is a violation.",
+  "Positive and negative monitors against a naive tree recomputed with the Hasher API: every non-empty subset of positions for trees of depth 1..4 (65,535 subsets at depth 4), every order of every subset at depth <= 3, sampled position sets (1..255 positions, adjacent/cousin/all-left/all-right patterns, shuffled orders) at depths 5..12, six hashers, serial and concurrent tree construction. Honest openings must verify, decompress to the naive paths, re-compress to themselves and survive the node wire format; ~40 mutation classes (each leaf/node replaced, vectors truncated/extended/moved, depth changes incl. >= 64, positions duplicated/permuted/out of range/added, positions added or removed together with a made-up or committed leaf) must each return an error - acceptance or a panic is a violation.",
   "Trusted: the naive tree and the Hasher implementations (C11). A mutant can only be accepted legitimately through a hash collision.",
   "exhaustive (depth<=4) + sampled differential monitor with mutation-based negative oracle",
   "DESIGN.md §5 C10")
@@ -66,19 +66,19 @@ C("C13",
   "DESIGN.md §5 C13")
 
 C("C12",
-  "Generated values of every serializable type (primitive integers incl. the variable-length size encoding at every 7-bit boundary, options, tuples, arrays, vectors, strings, maps, sets, nested compositions; base/extension field elements incl. boundary and chain-produced representations; digests of all six hashers; ProofOptions over the constructor space; TraceInfo incl. 255 columns, aux segments with 0 random elements, 65535 metadata bytes; Context; Commitments; Queries with 1/255 queries x 1/255 columns; OodFrame with/without Lagrange frame; FriProof with 0..max layers and up to 256 remainder coefficients) are encoded and decoded through SliceReader, Cursor and ReadAdapter (random chunking) with trailing garbage: decoded == original, bytes consumed == bytes written, and the components' parse() returns the original content. Whole prover-generated proofs are round-tripped in C01.",
+  "Generated values of every serializable type (primitive integers incl. the variable-length size encoding at every 7-bit boundary, options, tuples, arrays, vectors, strings, maps, sets, nested compositions; base/extension field elements incl. boundary and chain-produced representations; digests of all six hashers; ProofOptions over the constructor space; TraceInfo incl. 255 columns, aux segments with 0 random elements, 65535 metadata bytes; Context; Commitments; Queries with 1/255 queries x 1/255 columns; OodFrame with/without Lagrange frame; FriProof with 0..max layers and up to 256 remainder coefficients) (plus long byte payloads, strings and trace descriptions between other length-prefixed values) are encoded and decoded through SliceReader, Cursor and ReadAdapter (random chunking; the reader under test is handed to the decoder directly, consumption is measured by draining) with trailing garbage: decoded == original, bytes consumed == bytes written, and the components' parse() returns the original content. Whole prover-generated proofs are round-tripped in C01.",
   "Trusted: each type's own PartialEq; FRI proofs come from the real FriProver.",
   "round-trip monitor over three reader implementations with exact-consumption accounting",
   "DESIGN.md §5 C12")
 
 C("C05",
-  "A library of nine prover strategies (honest folding of a far function, remainder interpolated through the queried points after seeing them, remainder plus a multiple of the vanishing polynomial of the queried points, oversized remainder, tampered layer value, folding one layer with a wrong challenge, omitted layer, swapped layers, too-small degree claim) is run against the stand-alone FRI verifier on random functions, polynomials of degree bound+1..domain-1 and low-degree polynomials corrupted on 1/4..3/4 of the domain, for folding factors 2..16, blowups 2..32, base/quadratic/cubic fields and all hashers, with 100 queries (acceptance probability of honest folding <= 2^-40). Every case must be rejected or fail to parse; an acceptance under honest folding is cross-examined by an independent recomputation of the final consistency condition. This is exploration over a finite strategy library, not a soundness proof.",
+  "A library of thirteen prover strategies (among them: honest folding of a far function, remainder interpolated through the queried points after seeing them, remainder plus a multiple of the vanishing polynomial of the queried points, oversized remainder, tampered layer value, folding one layer with a wrong challenge, omitted layer, swapped layers, too-small degree claim, evaluations claimed to the verifier that differ from the committed first layer, rows made up after the queries, a hand-written prover in the partitioned layout, a mis-sized remainder pre-committed with a last layer that matches it over a doubled domain) is run against the stand-alone FRI verifier on random functions, polynomials of degree bound+1..domain-1 and low-degree polynomials corrupted on 1/4..3/4 of the domain, for folding factors 2..16, blowups 2..32, base/quadratic/cubic fields and all hashers, with 100 queries (acceptance probability of honest folding <= 2^-40). Every case must be rejected or fail to parse; an acceptance under honest folding is cross-examined by an independent recomputation of the final consistency condition. This is exploration over a finite strategy library, not a soundness proof.",
   "Trusted: construction of far functions; library FFT (C09) and apply_drp (C15) for building instances. Strategies that need more final positions than remainder coefficients are skipped and counted.",
   "adversarial strategy-library workload with a reject oracle (+ independent recomputation for lucky acceptances)",
   "DESIGN.md §5 C05")
 
 C("C15",
-  "Honest FRI proofs for polynomials of degree 0, 1, bound-1, exactly the bound, zero and random are generated for blowups 2..128, folding 2..16, remainder degrees 0..255, polynomial sizes 2^0..2^10 (degree bounds 0 and 1 forced in), position lists with duplicates / collisions after folding / 1..255 positions, eight field-extension-hasher configurations, with the prover instance reused; each must verify directly and after the FriProof byte round trip. apply_drp<2/4/8/16> is compared with the coefficient-domain definition of folding on direct evaluations; fold_positions, map_positions_to_indexes and num_fri_layers with their closed forms.",
+  "Honest FRI proofs for polynomials of degree 0, 1, bound-1, exactly the bound, zero and random are generated for blowups 2..128, folding 2..16, remainder degrees 0..255, polynomial sizes 2^0..2^10 (degree bounds 0 and 1 forced in), position lists with duplicates / collisions after folding / 1..255 positions, eight field-extension-hasher configurations, with the prover instance reused; each must verify directly and after the FriProof byte round trip, in the serial build and in the concurrent build (4 threads). apply_drp<2/4/8/16> is compared with the coefficient-domain definition of folding on direct evaluations; fold_positions, map_positions_to_indexes and num_fri_layers with their closed forms.",
   "Trusted: direct polynomial evaluation with the library field operations; only well-formed schedules are generated.",
   "acceptance monitor over generated honest instances + reference-model comparison of the folding step",
   "DESIGN.md §5 C15")
@@ -120,7 +120,7 @@ C("C06",
   "DESIGN.md §5 C06")
 
 C("C14",
-  "The same driver source is built without and with the `concurrent` feature. A dump of ~460 deterministic results (FFT/iFFT/LDE of 512..8192 points over four field types, twiddles, power series, batch inversion with zeros, add_in_place, mul_acc, transpose_slice, apply_drp, hash_values, Merkle trees of 512..16384 leaves, row/column-matrix LDE of short-wide (254/255 columns x 16..64 rows, extension columns) and long-narrow matrices with their row commitments, and twelve full proofs (three with constraint-evaluation domains of 8192/16384 rows whose main and auxiliary rules read periodic columns of cycle n, n/4 and 8) whose trace/constraint/FRI-layer commitments, OOD frame and context are dumped and which are then verified) is produced by the serial build and by the concurrent build under 13 pool sizes 1..64 and 3 oversubscribed CPU pinnings (repeated in thorough); every line must equal the serial one and every concurrent proof must verify. The workloads also run under valgrind memcheck (32 threads, quick; 8 threads thorough), ThreadSanitizer with -Zbuild-std (3/8/32 threads, thorough) and Miri (thorough), whose reports are violations.",
+  "The same driver source is built without and with the `concurrent` feature. A dump of ~460 deterministic results (FFT/iFFT/LDE of 512..8192 points over four field types, polynomials of 2..256 coefficients extended by blowups 8..128, twiddles, power series, batch inversion with zeros, add_in_place, mul_acc, transpose_slice, apply_drp, hash_values, Merkle trees of 512..16384 leaves, row/column-matrix LDE of short-wide (254/255 columns x 16..64 rows, extension columns) and long-narrow matrices with their row commitments, and twelve full proofs (three with constraint-evaluation domains of 8192/16384 rows whose main and auxiliary rules read periodic columns of cycle n, n/4 and 8) whose trace/constraint/FRI-layer commitments, OOD frame and context are dumped and which are then verified) is produced by the serial build and by the concurrent build under 13 pool sizes 1..64 and 3 oversubscribed CPU pinnings (repeated in thorough); every line must equal the serial one and every concurrent proof must verify. The workloads also run under valgrind memcheck (32 threads, quick; 8 threads thorough), ThreadSanitizer with -Zbuild-std (3/8/32 threads, thorough) and Miri (thorough), whose reports are violations.",
   "Only the schedules produced by these pool sizes, pinnings and repetitions are observed; results are compared through 64-bit hashes; Miri runs without the aliasing model (dependency noise).",
   "differential dump comparison serial vs concurrent builds under a thread-pool sweep + memcheck / TSan / Miri",
   "DESIGN.md §5 C14")
